@@ -122,6 +122,24 @@ func check(v *tlx.Val) (skipped bool, err error) {
 				return fmt.Errorf("%s: reference bytes decode (named type) to a different value at %s", v.Def.Name, d)
 			}
 		}
+		// the same value again, its bytes fields cut out of one buffer of the caller's (adjacent, with spare capacity over
+		// the following ones): same serialisation, and the caller's buffer is left alone
+		if ga, err := tlx.Bridge(reg, v); err == nil {
+			if blob, n := tlx.Adjacent(ga); n >= 1 {
+				run.Class("feat:bytes-fields-cut-from-one-buffer", 1)
+				before := append([]byte{}, blob...)
+				gotA, err := tl.Marshal(ga.Interface())
+				if err != nil {
+					return fmt.Errorf("%s with its bytes fields cut from one buffer: Marshal: %v", v.Def.Name, err)
+				}
+				if !bytes.Equal(gotA, refB) {
+					return fmt.Errorf("%s with its %d bytes fields cut from one buffer: serialisation differs from the schema-defined one at byte %d", v.Def.Name, n, firstDiff(gotA, refB))
+				}
+				if !bytes.Equal(blob, before) {
+					return fmt.Errorf("%s: Marshal wrote into the caller's buffer behind a bytes field (offset %d of %d)", v.Def.Name, firstDiff(blob, before), len(blob))
+				}
+			}
+		}
 		// the same value again with one sub-object in two places (a caller resolves a peer once and uses it twice, a
 		// vector names one object twice): the same Go pointer on both sides
 		if shareSubvalues(v) {
